@@ -167,7 +167,7 @@ func runStress(t *rapid.T, replay *scripts, embedded bool) {
 	leg := "stress"
 	if embedded {
 		leg = "embedded"
-		embOpts = sut.Opts{DataDir: sut.NewScratchDir("c05e"), AOFSync: "no", Policy: "allkeys-lru", MaxMemory: 1 << 40, EvictionInterval: 2 * time.Millisecond, RealClock: true}
+		embOpts = sut.Opts{DataDir: sut.NewScratchDir("c05e"), AOFSync: "no", Policy: "allkeys-lru", MaxMemory: 1 << 40, EvictionInterval: 300 * time.Microsecond, EvictionSample: 300, RealClock: true}
 		defer os.RemoveAll(embOpts.DataDir)
 		var err error
 		emb, err = sut.New(embOpts)
@@ -467,7 +467,7 @@ func runStress(t *rapid.T, replay *scripts, embedded bool) {
 			go func(g int) {
 				defer bw.Done()
 				c := embClient{emb}
-				for round := 0; round < 2; round++ {
+				for round := 0; round < 4; round++ {
 					for k := 0; k < 400; k++ {
 						c.Do("SET", fmt.Sprintf("burst%d-%d", g, k), "volatile", "PX", "1")
 					}
@@ -487,7 +487,7 @@ func runStress(t *rapid.T, replay *scripts, embedded bool) {
 		}
 		bw.Wait()
 		if n := lost.Load(); n > 0 {
-			fail("expiry churn: %d of 3200 values written without an expiry over keys whose expiry had just passed (acknowledged, no other writer) were gone afterwards while the background expiry sampler was running, e.g. %v", n, firstLost.Load())
+			fail("expiry churn: %d of 6400 values written without an expiry over keys whose expiry had just passed (acknowledged, no other writer) were gone afterwards while the background expiry sampler was running, e.g. %v", n, firstLost.Load())
 		}
 		rec.Class("embedded: expiry churn burst under a running sampler")
 	}
